@@ -43,10 +43,18 @@ class VariableElimination(Inference):
         dict: Modified working factors.
         """
 
-        working_factors = {
-            node: {(factor, None) for factor in self.factors[node]}
-            for node in self.factors
-        }
+        # Each factor is stored together with a token saying where it comes from. Factors
+        # compare (and hash) by value, so without the token two factors of the model
+        # that happen to be equal would collapse into a single set element.
+        numbering = {}
+        working_factors = {}
+        for node in self.factors:
+            occurrence = {}
+            working_factors[node] = set()
+            for factor in self.factors[node]:
+                number = numbering.setdefault(id(factor), len(numbering))
+                occurrence[number] = occurrence.get(number, -1) + 1
+                working_factors[node].add((factor, (number, occurrence[number])))
 
         # Dealing with evidence. Reducing factors over it before VE is run.
         if evidence:
@@ -57,7 +65,9 @@ class VariableElimination(Inference):
                     )
                     for var in factor_reduced.scope():
                         working_factors[var].remove((factor, origin))
-                        working_factors[var].add((factor_reduced, evidence_var))
+                        working_factors[var].add(
+                            (factor_reduced, (origin, evidence_var))
+                        )
                 del working_factors[evidence_var]
         return working_factors
 
@@ -174,8 +184,11 @@ class VariableElimination(Inference):
             all_factors = []
             for factor_li in self.factors.values():
                 all_factors.extend(factor_li)
+            # A factor is listed once per variable of its scope: keep every factor once
+            # (by identity, equal factors are different factors).
+            all_factors = list({id(factor): factor for factor in all_factors}.values())
             if joint:
-                return factor_product(*set(all_factors))
+                return factor_product(*all_factors)
             else:
                 return set(all_factors)
 
